@@ -19,11 +19,22 @@ def main():
             mod.regenerate(res)
     if res.broken:
         print("regeneration problems:", res.broken)
-    targets = common.coq_files()
-    rc, out = common.coq_make(targets, timeout=3000)
-    print(out[-3000:])
-    if rc != 0:
-        print("SETUP: coq build returned", rc)
+    # build every file's closure; a file that does not compile is reported and skipped (the check
+    # that needs it will report its own broken obligation) -- setup itself only fails on
+    # infrastructure problems
+    from concurrent.futures import ThreadPoolExecutor
+    failed = []
+
+    def build(rel):
+        rc1, out = common.coq_make([rel], timeout=3000)
+        return rel, rc1, out
+    roots = [f for f in common.coq_files() if f.startswith(("Properties/", "Extract/"))]
+    with ThreadPoolExecutor(max_workers=8) as ex:
+        for rel, rc1, out in ex.map(build, roots):
+            if rc1 != 0:
+                failed.append(rel)
+                print("SETUP: %s did not build:\n%s" % (rel, out[-1500:]))
+    rc = 0
     for f in sorted(glob.glob(os.path.join(common.COQ, "Extract", "*Runner.v"))):
         fam = os.path.basename(f)[:-len("Runner.v")].lower()
         try:
@@ -31,7 +42,6 @@ def main():
             print("runner", fam, "ok")
         except common.Broken as e:
             print("runner", fam, "FAILED", str(e)[-1000:])
-            rc = rc or 1
     return rc
 
 
